@@ -57,7 +57,7 @@ def gen_spec(rng, fmt='NETCDF4', big=0.0):
     for i in range(rng.randrange(0, 5)):
         k = rng.choice(['title', 'history', 'ival', 'fval', 'farr', 'iarr', 'Conventions',
                         'source', 'n_levels', 'scale', 'typecode', 'units', 'long_name'])
-        attrs[k] = _gen_attr(rng)
+        attrs[k] = _gen_attr(rng, fmt)
     vars_ = []
     dl = {d[0]: d[1] for d in dims}
     base = 10.0
@@ -85,7 +85,7 @@ def gen_spec(rng, fmt='NETCDF4', big=0.0):
             # like any other: names and VALUES come back)
             k = rng.choice(['units', 'long_name', 'scale', 'valid', 'flag', 'arr', 'variables',
                             'title', 'history', 'actual_range'])
-            v['attrs'][k] = _gen_attr(rng)
+            v['attrs'][k] = _gen_attr(rng, fmt)
         if dt in ('f4', 'f8') and rng.random() < 0.15:
             # non-finite numbers are data like any other (unmasked: bit-identical)
             v['nonfinite'] = [[rng.randrange(0, 50), rng.choice(['nan', 'inf', '-inf'])]
@@ -151,7 +151,18 @@ def gen_spec(rng, fmt='NETCDF4', big=0.0):
     return {'dims': dims, 'attrs': attrs, 'vars': vars_}
 
 
-def _gen_attr(rng):
+def _gen_attr(rng, fmt=None):
+    if rng.random() < 0.2:
+        # integer attributes of other widths: int16 exists in every flavour, 64-bit
+        # and unsigned ones only in NETCDF4 (values beyond the int32 range, so that a
+        # writer that narrows them is seen in the value as well as in the type)
+        if fmt == 'NETCDF4':
+            t = rng.choice(['i8', 'i8a', 'u2', 'u8', 'i2'])
+        else:
+            t = 'i2'
+        return {'t': t, 'v': {'i8': 2 ** 40 + rng.randrange(1000), 'u2': 65000 + rng.randrange(500),
+                              'i8a': [2 ** 40 + rng.randrange(1000), -rng.randrange(1, 9), 3],
+                              'u8': 2 ** 63 + rng.randrange(1000), 'i2': -rng.randrange(1, 30000)}[t]}
     k = rng.randrange(6)
     if k == 0:
         return {'t': 'str', 'v': rng.choice(['ppb', 'a longer attribute value, with commas',
@@ -185,6 +196,10 @@ def _attr(x):
         return np.array(x['v'], dtype='f8')
     if t == 'i4a':
         return np.array(x['v'], dtype='i4')
+    if t in ('i8', 'u2', 'u8', 'i2'):
+        return np.dtype(t).type(x['v'])
+    if t == 'i8a':
+        return np.array(x['v'], dtype='i8')
     raise HarnessError(t)
 
 
